@@ -201,15 +201,57 @@ class Run:
         S.begin_phase(phase, faults)
         S.begin_op(-1)
         self.fs = simfs.activate(int((doc.get("knobs") or {}).get("bufsize", 8192)))
-        self.bb = parse_belief_base(doc["base"]["text"])
-        self.sig = list(self.bb.signature)
-        self.keys = list(self.bb.conditionals.keys())
-        self.conds_ast = [(EF.from_pysmt(c.consequence), EF.from_pysmt(c.antecedence)) for c in self.bb.conditionals.values()]
-        self.obj = None
-        self.ref = None
-        self.kind = doc["obj"]["kind"]
+        # slot 0 is the object of the scenario; C16 scenarios may hold a second System Z object over
+        # the same signature (another base / facts / mode) whose operations are interleaved
+        self.slots = []
+        self.cur = 0
+        specs = [(doc["obj"], doc["base"]["text"])]
+        if doc.get("obj2"):
+            specs.append((doc["obj2"], doc["obj2"]["base"]))
+        for spec, text in specs:
+            bb = parse_belief_base(text)
+            self.slots.append(
+                {
+                    "spec": spec,
+                    "bb": bb,
+                    "sig": list(bb.signature),
+                    "keys": list(bb.conditionals.keys()),
+                    "conds_ast": [(EF.from_pysmt(c.consequence), EF.from_pysmt(c.antecedence)) for c in bb.conditionals.values()],
+                    "obj": None,
+                    "ref": None,
+                    "kind": spec["kind"],
+                    "created": False,
+                }
+            )
         self.created = False
         self.refused = False
+
+    # -- the current slot ---------------------------------------------------------------------
+    def _slot(self):
+        return self.slots[self.cur]
+
+    bb = property(lambda self: self._slot()["bb"])
+    sig = property(lambda self: self._slot()["sig"])
+    keys = property(lambda self: self._slot()["keys"])
+    conds_ast = property(lambda self: self._slot()["conds_ast"])
+    kind = property(lambda self: self._slot()["kind"])
+    spec = property(lambda self: self._slot()["spec"])
+
+    @property
+    def obj(self):
+        return self._slot()["obj"]
+
+    @obj.setter
+    def obj(self, v):
+        self._slot()["obj"] = v
+
+    @property
+    def ref(self):
+        return self._slot()["ref"]
+
+    @ref.setter
+    def ref(self, v):
+        self._slot()["ref"] = v
 
     # -- reference ranks ------------------------------------------------------------------
     def ref_rank(self, w, obj=None):
@@ -217,7 +259,7 @@ class Run:
         if self.kind == "system-z":
             return self.ref.rank(w)
         if self.kind == "custom":
-            return self.doc["obj"]["ranks"].get(w)
+            return self.spec["ranks"].get(w)
         # c-representation object: sum of the impacts of the falsified conditionals
         world = {self.sig[i]: w[i] == "1" for i in range(len(self.sig))}
         r = 0
@@ -231,10 +273,23 @@ class Run:
 
     # -- creation ---------------------------------------------------------------------------
     def create(self):
+        ok = True
+        for n in range(len(self.slots)):
+            self.cur = n
+            made = self._create_one()
+            self.slots[n]["created"] = bool(made)
+            if n == 0:
+                ok = bool(made)
+                if not ok:
+                    break
+        self.cur = 0
+        return ok
+
+    def _create_one(self):
         from inference.preocf import PreOCF
         from parser.Wrappers import parse_formula
 
-        o = self.doc["obj"]
+        o = self.spec
         meta = copy.deepcopy(o.get("metadata")) if o.get("metadata") is not None else None
         if self.kind == "system-z":
             facts = o.get("facts") or None
@@ -245,7 +300,8 @@ class Run:
             try:
                 self.obj = PreOCF.init_system_z(self.bb, metadata=meta, facts=list(facts) if facts else None, extended=ext)
             except ValueError as e:
-                self.refused = True
+                if self.cur == 0:
+                    self.refused = True
                 msg = str(e)
                 self.S.trace("create.refused", msg[:200])
                 if self.prop == "C16":
@@ -289,20 +345,23 @@ class Run:
             self.obj = PreOCF.init_custom(dict(o["ranks"]), self.bb if o.get("with_bb") else None, self.sig, meta)
         else:
             raise seams.HarnessError("unknown object kind %r" % self.kind)
-        self.created = True
-        self.first_impacts = list(getattr(self.obj, "_impacts", None) or [])
+        if self.cur == 0:
+            self.created = True
+            self.first_impacts = list(getattr(self.obj, "_impacts", None) or [])
         self.S.trace("create", self.kind, _describe(self.obj)["cls"])
         return True
 
     # -- invariants --------------------------------------------------------------------------
     def check_table(self, op, obj=None):
-        obj = obj or self.obj
         if self.prop != "C16":
             return
-        for w, r in obj.ranks.items():
-            if r is not None and r != self.ref.rank(w):
-                self.v("cache_garbage", op, world=w, got=r, want=self.ref.rank(w))
-                return
+        for n, sl in enumerate(self.slots):
+            if not sl["created"] or sl["obj"] is None or sl["ref"] is None:
+                continue
+            for w, r in sl["obj"].ranks.items():
+                if r is not None and r != sl["ref"].rank(w):
+                    self.v("cache_garbage", op, world=w, got=r, want=sl["ref"].rank(w), object=n)
+                    return
 
     def _cond(self, text):
         from parser.Wrappers import parseQuery
@@ -321,6 +380,12 @@ class Run:
         kind = op["op"]
         fired_before = dict(S.fired)
         ob = {"op": i, "kind": kind}
+        self.cur = int(op.get("on", 0))
+        if self.cur >= len(self.slots) or not self.slots[self.cur]["created"]:
+            self.cur = 0
+            ob["skipped"] = "no such object"
+            self.obs.append(ob)
+            return
         try:
             getattr(self, "op_" + kind)(i, op, ob)
         except seams.HarnessError:
@@ -333,6 +398,7 @@ class Run:
             else:
                 ob["interrupted"] = True
         self.check_table(i)
+        self.cur = 0
         S.trace("obs", json.dumps(ob, sort_keys=True, default=str)[:2000])
         self.obs.append(ob)
 
@@ -739,11 +805,18 @@ class Run:
     def op_new_impacts(self, i, op, ob):
         from inference.preocf import RandomMinCRepPreOCF
 
-        self.obj = RandomMinCRepPreOCF.init_with_impacts_list(self.bb, list(op["impacts"]), metadata=copy.deepcopy(self.doc["obj"].get("metadata")))
+        self.obj = RandomMinCRepPreOCF.init_with_impacts_list(self.bb, list(op["impacts"]), metadata=copy.deepcopy(self.spec.get("metadata")))
         ob["impacts"] = list(op["impacts"])
 
     # -- final obligations of C16 --------------------------------------------------------------
     def final_c16(self):
+        for n, sl in enumerate(self.slots):
+            if sl["created"]:
+                self.cur = n
+                self._final_c16_one()
+        self.cur = 0
+
+    def _final_c16_one(self):
         from inference.consistency_diagnostics import augment_belief_base_with_facts
         from inference.inference_manager import InferenceManager
         from inference.queries import Queries
@@ -766,7 +839,7 @@ class Run:
             except Exception as e:  # noqa: BLE001
                 self.v("exception:" + type(e).__name__, i, opkind="final_accept", msg=str(e)[:200])
         # acceptance equals the System Z operator (and the reference) when the antecedent is feasible
-        facts = self.doc["obj"].get("facts") or None
+        facts = self.spec.get("facts") or None
         bb_op = augment_belief_base_with_facts(self.bb, list(facts)) if facts else self.bb
         conds, asts = {}, {}
         for n, qt in enumerate(self.doc.get("queries") or [], start=1):
@@ -1151,6 +1224,18 @@ def generate(prop, verif_seed, idx, tier="quick", cls=None):
                 pos = g.randrange(len(ops) + 1)
                 ops.insert(pos, {"op": "saveload", "path": g.choice(PATHS_OCF), "where": g.choice(["inproc", "inproc", "restart"]), "adopt": g.random() < 0.7, "sseed": g.randrange(1000), "nworlds": g.randint(0, 3), "nqueries": g.randint(0, 1)})
         doc = {"property": prop, "seed": sseed, "idx": idx, "class": cls, "knobs": knobs, "base": {"text": text, "src": src}, "obj": obj, "queries": queries, "ops": ops}
+        if src == "gen" and g.random() < 0.3:
+            # a second ranking object over the same signature (another base / mode / facts), used alternately
+            ext2 = g.choice([None, False, True])
+            want2 = g.choice(["weakly", "consistent"]) if ext2 else "consistent"
+            sig2, conds2 = W.gen_base(g, want=want2, max_conds=g.choice([3, 5]), exact_atoms=len(sig))
+            obj2 = {"kind": "system-z", "extended": ext2, "facts": None, "base": W.base_text(sig2, conds2, name="kb2")}
+            if ext2 is not False and g.random() < 0.3:
+                obj2["facts"] = [_gen_fact(g, sig2)]
+            doc["obj2"] = obj2
+            for op in ops:
+                if op["op"] != "saveload" and g.random() < 0.45:
+                    op["on"] = 1
         if cls == "interrupt":
             doc["fault_plan"] = {"n": g.choice([1, 2, 3])}
         else:
@@ -1261,7 +1346,7 @@ def generate(prop, verif_seed, idx, tier="quick", cls=None):
 
 
 def canonical(doc):
-    d = {k: doc.get(k) for k in ("property", "knobs", "base", "obj", "queries", "ops", "faults", "final")}
+    d = {k: doc.get(k) for k in ("property", "knobs", "base", "obj", "obj2", "queries", "ops", "faults", "final")}
     return hashlib.sha256(json.dumps(d, sort_keys=True).encode()).hexdigest()
 
 
@@ -1350,11 +1435,11 @@ def jobs(prop, verif_seed, n, tier):
 
 def sample_view(res):
     d = res["doc"]
-    return {"class": d.get("class"), "base": d["base"]["text"], "object": d["obj"], "queries": d.get("queries"), "ops": d["ops"], "faults": d.get("faults"), "faults_fired": res.get("fired")}
+    return {"class": d.get("class"), "base": d["base"]["text"], "object": d["obj"], "object2": d.get("obj2"), "queries": d.get("queries"), "ops": d["ops"], "faults": d.get("faults"), "faults_fired": res.get("fired")}
 
 
 def features(doc, v):
-    f = {"class": v["class"], "kind": doc["obj"]["kind"], "extended": doc["obj"].get("extended"), "facts": bool(doc["obj"].get("facts"))}
+    f = {"class": v["class"], "kind": doc["obj"]["kind"], "extended": doc["obj"].get("extended"), "facts": bool(doc["obj"].get("facts")), "two_objects": bool(doc.get("obj2"))}
     o = v.get("op")
     ops = doc["ops"]
     if o is not None and 0 <= o < len(ops):
@@ -1388,6 +1473,12 @@ def shrink_candidates(doc):
                 continue
             fl.append(dict(f, op=f["op"] - 1) if f["op"] > i else f)
         yield dict(doc, ops=ops[:i] + ops[i + 1 :], faults=fl)
+    # drop the second object when no operation uses it; or move its operations away
+    if doc.get("obj2"):
+        if not any(op.get("on") == 1 for op in ops):
+            yield {k: v for k, v in doc.items() if k != "obj2"}
+        else:
+            yield dict({k: v for k, v in doc.items() if k != "obj2"}, ops=[op for op in ops if op.get("on") != 1])
     # drop queries / facts / metadata
     qs = doc.get("queries") or []
     used = {op.get("q") for op in ops}
